@@ -40,6 +40,7 @@ LOCAL C15Want(e) ==        \* expected encoded outcome, or <<-1>> when the class
        [] e.cls = "invmod" -> LET r == ModInv(e.a, e.m) IN
                               IF r[1] THEN (IF e.m = One THEN <<-1>> ELSE C15Ok(r[2])) ELSE C15None
        [] e.cls = "powmod" -> C15Ok(ModPow(e.a, e.b, e.m))
+       [] e.cls = "powk"   -> C15Ok(ModPow(e.a, Mod2k(e.b, e.s), e.m))
        [] OTHER -> <<-1>>
 
 LOCAL C15Grp(e) ==
